@@ -1,1 +1,513 @@
-fn main() {}
+//! C04 — HTTP/1 connections always progress: no lost wake-ups, all bytes flushed.
+//!
+//! The real dispatcher runs over the scripted socket under a WAKE-DRIVEN executor: after the
+//! environment change of a round the connection future is polled only while its waker has fired.
+//! Oracle (implementation only): stall detector, byte-for-byte comparison of the accepted bytes with
+//! a reference run on an always-ready socket, termination after peer EOF, busy-loop detector.
+//! Correspondence: the wake-driven run of the poll composer (`CWake`) and the poll_flush model
+//! against the accepted-byte sequence per write script (`CFlush`).
+
+#[path = "../c05/scen.rs"]
+#[allow(dead_code)]
+mod scen;
+
+use scen::*;
+use vh::*;
+
+fn mask_dates(w: &[u8]) -> Vec<u8> {
+    let mut out = w.to_vec();
+    let pat = b"date: ";
+    let mut i = 0;
+    while i + pat.len() + 29 <= out.len() {
+        if &out[i..i + pat.len()] == pat {
+            for b in &mut out[i + pat.len()..i + pat.len() + 29] {
+                *b = b'D';
+            }
+            i += pat.len() + 29;
+        } else {
+            i += 1;
+        }
+    }
+    out
+}
+
+fn modelled(c: &Case) -> bool {
+    !c.rounds.iter().any(|r| r.rst || r.wr.iter().any(|w| matches!(w, W::Z | W::E)) || r.fl.iter().any(|f| matches!(f, F::E)))
+        && !c.handlers.iter().any(|h| h.contains(&HAct::Drop))
+}
+
+/// F21 class (a predicate on the case): the first handler starts by waiting, at least
+/// 1 + MAX_PIPELINED_MESSAGES requests have been delivered before some later round that delivers
+/// more bytes, and that round comes before the handler is woken.
+fn known_class(c: &Case) -> &'static str {
+    let first_waits = c.handlers.first().map_or(false, |h| matches!(h.first(), Some(HAct::Pend)));
+    if !first_waits {
+        return "";
+    }
+    let mut ends = vec![];
+    let mut off = 0;
+    for it in &c.items {
+        if let Item::Req { h, b } = it {
+            off += h + b.unwrap_or(0);
+            ends.push(off);
+        }
+    }
+    let mut delivered = 0usize;
+    for r in &c.rounds {
+        if r.hw {
+            break;
+        }
+        let complete = ends.iter().filter(|e| **e <= delivered).count();
+        if complete >= 1 + MAXP && r.add > 0 {
+            return "queue-full-then-more-requests";
+        }
+        delivered += r.add;
+    }
+    ""
+}
+
+struct Verdict {
+    ok: bool,
+    why: String,
+    stalled: bool,
+}
+
+fn complete_requests(c: &Case, taken: usize) -> usize {
+    let mut off = 0;
+    let mut n = 0;
+    for it in &c.items {
+        match it {
+            Item::Req { h, b } => {
+                off += h + b.unwrap_or(0);
+                if off <= taken {
+                    n += 1;
+                } else {
+                    break;
+                }
+            }
+            Item::Endless => break,
+        }
+    }
+    n
+}
+
+/// the environment has nothing further to deliver: every round after the case's own rounds only
+/// offers an accepting socket and wakes pending handlers
+fn with_drain(c: &Case) -> Case {
+    let mut d = c.clone();
+    for _ in 0..6 {
+        d.rounds.push(Round { add: 0, wr: vec![W::A(1 << 30); 4], hw: true, ..Default::default() });
+    }
+    d
+}
+
+fn reference(c: &Case) -> RunOut {
+    let total: usize = c.rounds.iter().map(|r| r.add).sum();
+    let mut r = c.clone();
+    r.rounds = vec![Round { add: total, wr: vec![W::A(1 << 30); 8], hw: true, ..Default::default() }];
+    let acts: usize = c.handlers.iter().map(|h| h.len()).sum::<usize>() + 8;
+    for _ in 0..acts {
+        r.rounds.push(Round { add: 0, wr: vec![W::A(1 << 30); 8], hw: true, ..Default::default() });
+    }
+    run_case(&r, false)
+}
+
+fn oracle(c: &Case, out: &RunOut) -> Verdict {
+    let last = out.snaps.last().cloned().unwrap_or_default();
+    let mut why = String::new();
+    let mut stalled = false;
+    if out.livelock {
+        why = "connection task keeps waking itself (more than 5000 polls in one round)".into();
+    }
+    let eof = c.rounds.iter().any(|r| r.eof);
+    let rst = c.rounds.iter().any(|r| r.rst);
+    let sock_err = c.rounds.iter().any(|r| r.wr.iter().any(|w| matches!(w, W::Z | W::E)) || r.fl.iter().any(|f| matches!(f, F::E)));
+    let complete = complete_requests(c, last.taken);
+    if why.is_empty() && !out.finished {
+        // quiescent (the drain rounds have run, nothing woke the task) -- is there work left?
+        let resp_done = last.responded;
+        if last.started < complete && resp_done == last.started && last.produced == last.accepted {
+            stalled = true;
+            why = format!(
+                "stall: {} complete requests taken from the socket, only {} dispatched, every dispatched one answered and flushed, no waker pending",
+                complete, last.started
+            );
+        } else if last.produced > last.accepted && !sock_err {
+            stalled = true;
+            why = format!("stall: {} response bytes unflushed although the socket accepts", last.produced - last.accepted);
+        } else if eof && resp_done == last.started && last.started == complete {
+            why = "no termination: peer closed, every request answered and flushed, connection future still pending".into();
+        }
+    }
+    // byte-for-byte against the reference run
+    if why.is_empty() && !c.handlers.iter().any(|h| h.contains(&HAct::Drop)) && !rst && !sock_err {
+        let r = reference(c);
+        let (a, b) = (mask_dates(&out.wire), mask_dates(&r.wire));
+        if !(a.len() <= b.len() && a[..] == b[..a.len()]) {
+            let p = a.iter().zip(b.iter()).position(|(x, y)| x != y).unwrap_or(a.len().min(b.len()));
+            why = format!("accepted bytes differ from the reference run at offset {p} (test {} bytes, reference {} bytes)", a.len(), b.len());
+        } else if !eof && a.len() < b.len() && last.started == complete && !out.finished && !stalled {
+            // nothing to report here: handlers that never answer are part of the scripts
+        }
+    }
+    Verdict { ok: why.is_empty(), why, stalled }
+}
+
+fn expect_wake(out: &RunOut, stalled: bool) -> V {
+    V::T(
+        "wake",
+        vec![
+            V::L(out
+                .snaps
+                .iter()
+                .map(|s| {
+                    V::T(
+                        "w",
+                        vec![V::us(s.polls), V::us(s.taken), V::us(s.started), V::us(s.delivered), V::us(s.pulled), V::us(s.accepted), V::n(s.res)],
+                    )
+                })
+                .collect()),
+            V::b(stalled),
+            V::b(out.livelock),
+            V::b(true),
+        ],
+    )
+}
+
+// ---------------------------------------------------------------- flush cases
+
+#[derive(serde::Serialize, serde::Deserialize, Clone, Debug)]
+struct FlushCase {
+    n: usize,
+    rounds: Vec<(Vec<W>, Vec<F>)>,
+}
+
+fn flush_case_as_case(f: &FlushCase) -> Case {
+    let mut rounds = vec![];
+    for (i, (w, fl)) in f.rounds.iter().enumerate() {
+        rounds.push(Round { add: if i == 0 { 18 } else { 0 }, wr: w.clone(), fl: fl.clone(), ..Default::default() });
+    }
+    Case {
+        kind: "flush".into(),
+        wbs: 1 << 30,
+        r: LW,
+        items: vec![Item::Req { h: 18, b: None }],
+        handlers: vec![vec![HAct::Respond(RespBody::Sized(vec![BAct::Chunk(f.n), BAct::End]))]],
+        rounds,
+    }
+}
+
+fn run_flush(id: String, f: FlushCase, em: &mut Emitter) {
+    let case = flush_case_as_case(&f);
+    prewarm(&case);
+    let r = reference(&case);
+    let resp = mask_dates(&r.wire);
+    let out = run_case(&case, false);
+    let wire = mask_dates(&out.wire);
+    let mut items = vec![];
+    let mut prev = 0usize;
+    let mut why = String::new();
+    for s in &out.snaps {
+        let chunk = &wire[prev.min(wire.len())..s.accepted.min(wire.len())];
+        prev = s.accepted;
+        let code = if s.res >= 2 { 2 } else if s.wreg { 1 } else { 0 };
+        items.push(V::T("f", vec![V::h(chunk), V::n(code as u8), V::b(s.wreg)]));
+    }
+    // oracle: accepted bytes are a prefix of the response, all of it when the buffer drained
+    if !(wire.len() <= resp.len() && wire[..] == resp[..wire.len()]) {
+        why = "bytes accepted by the socket are not a prefix of the response".into();
+    }
+    let zero_or_err = f.rounds.iter().any(|(w, fl)| w.iter().any(|x| matches!(x, W::Z | W::E)) || fl.iter().any(|x| matches!(x, F::E)));
+    let last = out.snaps.last().cloned().unwrap_or_default();
+    if why.is_empty() && !zero_or_err && last.res >= 2 {
+        why = "connection failed without a socket error".into();
+    }
+    let model_rounds = coq_rle(&f.rounds, |(w, fl)| format!("({}, {})", coq_rle(w, coq_w), coq_rle(fl, coq_f)));
+    em.emit(CaseOut {
+        id,
+        input: serde_json::json!({ "flush": f }),
+        coq_case: Some(format!("(CFlush {} {})", coq_bytes(&resp), model_rounds)),
+        expect: Some(V::T("flush", vec![V::L(items)]).coq()),
+        impl_show: format!("response {} bytes, accepted {} in {} polls, res {}", resp.len(), wire.len(), out.snaps.len(), last.res),
+        oracle_ok: why.is_empty(),
+        oracle_why: why,
+        known_class: String::new(),
+        nontrivial: f.rounds.iter().any(|(w, _)| w.len() > 1 || w.iter().any(|x| matches!(x, W::A(k) if *k < resp.len()))),
+        sig: format!("flush:{}:{}", f.n, f.rounds.len()),
+        tags: vec!["kind:flush".into(), format!("res:{}", last.res), format!("partial:{}", wire.len() < resp.len())],
+    });
+}
+
+fn run_wake(id: String, mut case: Case, fix21: bool, em: &mut Emitter) {
+    normalize(&mut case);
+    prewarm(&case);
+    let full = with_drain(&case);
+    let res = catch(|| run_case(&full, true));
+    let input = serde_json::to_value(&case).unwrap();
+    match res {
+        Err(p) => {
+            em.panics += 1;
+            em.emit(CaseOut {
+                id,
+                input,
+                impl_show: format!("PANIC {p}"),
+                oracle_ok: false,
+                oracle_why: format!("implementation panicked: {p}"),
+                tags: vec![format!("kind:{}", case.kind), "panic".into()],
+                ..Default::default()
+            });
+        }
+        Ok(out) => {
+            let v = oracle(&full, &out);
+            let last = out.snaps.last().cloned().unwrap_or_default();
+            let m = modelled(&case);
+            let polls: usize = out.snaps.iter().map(|s| s.polls).sum();
+            em.emit(CaseOut {
+                id,
+                input,
+                coq_case: if m { Some(format!("(CWake {})", coq_case(&full, fix21))) } else { None },
+                expect: if m { Some(expect_wake(&out, v.stalled).coq()) } else { None },
+                impl_show: format!(
+                    "rounds={} polls={} taken={} started={} accepted={} produced={} res={} stalled={} livelock={}",
+                    out.snaps.len(), polls, last.taken, last.started, last.accepted, last.produced, last.res, v.stalled, out.livelock
+                ),
+                oracle_ok: v.ok,
+                oracle_why: v.why,
+                known_class: known_class(&case).into(),
+                nontrivial: out.snaps.iter().any(|s| s.polls == 0) || out.snaps.iter().any(|s| s.polls > 1),
+                sig: format!("{}:{}:{}:{}", case.kind, last.res, v.stalled, polls.min(40)),
+                tags: vec![
+                    format!("kind:{}", case.kind),
+                    format!("res:{}", last.res),
+                    format!("modelled:{m}"),
+                    format!("stalled:{}", v.stalled),
+                    format!("polls:{}", if polls < 10 { "<10" } else if polls < 50 { "<50" } else { ">=50" }),
+                ],
+            });
+        }
+    }
+}
+
+// ---------------------------------------------------------------- generator
+
+fn wr(rng: &mut Rng) -> Vec<W> {
+    match rng.below(6) {
+        0 | 1 => vec![W::A(1 << 20); 3],
+        2 => vec![],
+        3 => vec![W::A(rng.range(1, 64) as usize)],
+        4 => (0..rng.range(1, 5)).map(|_| W::A(rng.range(1, 3000) as usize)).collect(),
+        _ => vec![W::A(rng.range(1, 300) as usize), W::P],
+    }
+}
+
+fn body(rng: &mut Rng) -> RespBody {
+    let mut acts = vec![];
+    for _ in 0..rng.range(1, 4) {
+        if rng.chance(1, 3) {
+            acts.push(BAct::Pend);
+        }
+        acts.push(BAct::Chunk(*rng.pick(&[1usize, 10, 500, 5000])));
+    }
+    acts.push(BAct::End);
+    if rng.chance(1, 2) {
+        RespBody::Stream(acts)
+    } else {
+        RespBody::Sized(acts)
+    }
+}
+
+fn gen_wake(rng: &mut Rng) -> Case {
+    let kind = rng.below(10);
+    let wbs = *rng.pick(&[64usize, 4096, 32768]);
+    let mut items = vec![];
+    let mut handlers = vec![];
+    let mut rounds = vec![];
+    let name;
+    match kind {
+        0 | 1 => {
+            // the queue gate: one waiting handler, a full queue, late arrivals, then the wake-up
+            name = "queue-drain";
+            let first = rng.range(10, 30) as usize;
+            let late: Vec<usize> = (0..rng.range(1, 3)).map(|_| rng.range(0, 12) as usize).collect();
+            let n = 1 + first + late.iter().sum::<usize>();
+            items.push(Item::Req { h: 18, b: None });
+            handlers.push(vec![HAct::Pend, HAct::Respond(RespBody::None)]);
+            for _ in 1..n {
+                items.push(Item::Req { h: 18, b: None });
+                handlers.push(vec![HAct::Respond(RespBody::None)]);
+            }
+            rounds.push(Round { add: 18 * (1 + first), wr: vec![W::A(1 << 20); 3], ..Default::default() });
+            for l in &late {
+                rounds.push(Round { add: 18 * l, wr: vec![W::A(1 << 20); 3], ..Default::default() });
+            }
+            rounds.push(Round { add: 0, hw: true, wr: vec![W::A(1 << 20); 3], ..Default::default() });
+            if rng.chance(1, 2) {
+                rounds.push(Round { add: 0, eof: true, wr: vec![W::A(1 << 20); 3], ..Default::default() });
+            }
+        }
+        2 | 3 | 4 => {
+            // adversarial socket: partial writes, Pending writes and flushes, bodies that wait
+            name = "socket";
+            let n = rng.range(1, 6) as usize;
+            for _ in 0..n {
+                items.push(Item::Req { h: fit_head(rng.range(18, 200) as usize, None), b: None });
+                let mut h = vec![];
+                if rng.chance(1, 3) {
+                    h.push(HAct::Pend);
+                }
+                h.push(HAct::Respond(if rng.chance(1, 3) { RespBody::None } else { body(rng) }));
+                handlers.push(h);
+            }
+            let total: usize = items.iter().map(|i| if let Item::Req { h, .. } = i { *h } else { 0 }).sum();
+            let mut left = total;
+            for _ in 0..rng.range(1, 4) {
+                let add = rng.below(left as u64 + 1) as usize;
+                left -= add;
+                rounds.push(Round { add, wr: wr(rng), fl: if rng.chance(1, 5) { vec![F::P] } else { vec![] }, hw: rng.chance(1, 2), ..Default::default() });
+            }
+            rounds.push(Round { add: left, wr: wr(rng), ..Default::default() });
+            for _ in 0..rng.range(2, 14) {
+                rounds.push(Round { add: 0, wr: wr(rng), fl: if rng.chance(1, 6) { vec![F::P] } else { vec![] }, hw: rng.chance(1, 2), ..Default::default() });
+            }
+            if rng.chance(1, 2) {
+                rounds.push(Round { add: 0, eof: true, wr: wr(rng), ..Default::default() });
+            }
+        }
+        5 | 6 => {
+            // request body with a slow consumer; half-close at any point
+            name = "body-halfclose";
+            let blen = *rng.pick(&[10usize, 5000, 40_000, 100_000]);
+            items.push(Item::Req { h: fit_head(60, Some(blen)), b: Some(blen) });
+            let mut h = vec![];
+            for _ in 0..rng.below(4) {
+                h.push(HAct::Read);
+                if rng.chance(1, 2) {
+                    h.push(HAct::Pend);
+                }
+            }
+            h.push(HAct::ReadAll);
+            h.push(HAct::Respond(if rng.chance(1, 2) { RespBody::None } else { body(rng) }));
+            handlers.push(h);
+            for _ in 0..rng.below(3) {
+                items.push(Item::Req { h: 18, b: None });
+                handlers.push(vec![HAct::Respond(RespBody::None)]);
+            }
+            let total: usize = items.iter().map(|i| if let Item::Req { h, b } = i { h + b.unwrap_or(0) } else { 0 }).sum();
+            let cut = if rng.chance(1, 3) { rng.below(total as u64 + 1) as usize } else { total };
+            let mut left = cut;
+            while left > 0 {
+                let add = (*rng.pick(&[1usize, 100, 2000, 30_000, 200_000])).min(left);
+                left -= add;
+                rounds.push(Round { add, wr: wr(rng), hw: rng.chance(1, 2), ..Default::default() });
+            }
+            rounds.push(Round { add: 0, eof: rng.chance(2, 3), wr: wr(rng), hw: true, ..Default::default() });
+        }
+        7 => {
+            // oracle-only: reset / socket write errors at any point
+            name = "reset-or-error";
+            let n = rng.range(1, 5) as usize;
+            for _ in 0..n {
+                items.push(Item::Req { h: 18, b: None });
+                handlers.push(vec![HAct::Respond(if rng.chance(1, 2) { RespBody::None } else { body(rng) })]);
+            }
+            rounds.push(Round { add: 18 * n, wr: wr(rng), ..Default::default() });
+            for _ in 0..rng.range(1, 5) {
+                rounds.push(Round { add: 0, wr: wr(rng), hw: true, ..Default::default() });
+            }
+            let k = rng.below(rounds.len() as u64) as usize;
+            match rng.below(3) {
+                0 => rounds[k].rst = true,
+                1 => rounds[k].wr.insert(0, W::Z),
+                _ => rounds[k].wr.insert(0, W::E),
+            }
+        }
+        8 => {
+            // oracle-only: the consumer drops the request body
+            name = "drop-payload";
+            let blen = *rng.pick(&[10usize, 5000, 100_000]);
+            items.push(Item::Req { h: fit_head(60, Some(blen)), b: Some(blen) });
+            let mut h = vec![];
+            if rng.chance(1, 2) {
+                h.push(HAct::Read);
+            }
+            h.push(HAct::Drop);
+            if rng.chance(1, 2) {
+                h.push(HAct::Pend);
+            }
+            h.push(HAct::Respond(RespBody::None));
+            handlers.push(h);
+            let total = 60 + blen;
+            let mut left = total;
+            while left > 0 {
+                let add = (*rng.pick(&[100usize, 2000, 30_000, 200_000])).min(left);
+                left -= add;
+                rounds.push(Round { add, wr: wr(rng), hw: rng.chance(1, 2), ..Default::default() });
+            }
+            rounds.push(Round { add: 0, eof: rng.chance(1, 2), wr: wr(rng), hw: true, ..Default::default() });
+        }
+        _ => {
+            // plain pipelines, everything in few rounds, EOF at the end
+            name = "pipeline-eof";
+            let n = rng.range(1, 40) as usize;
+            for _ in 0..n {
+                items.push(Item::Req { h: 18, b: None });
+                handlers.push(vec![HAct::Respond(RespBody::None)]);
+            }
+            let a = rng.below(18 * n as u64 + 1) as usize;
+            rounds.push(Round { add: a, wr: wr(rng), ..Default::default() });
+            rounds.push(Round { add: 18 * n - a, wr: wr(rng), eof: rng.chance(1, 2), ..Default::default() });
+            rounds.push(Round { add: 0, wr: wr(rng), eof: true, ..Default::default() });
+        }
+    }
+    Case { kind: name.into(), wbs, r: LW, items, handlers, rounds }
+}
+
+fn gen_flush(rng: &mut Rng) -> FlushCase {
+    let n = *rng.pick(&[1usize, 5, 100, 1000, 4000]);
+    let mut rounds = vec![];
+    for _ in 0..rng.range(1, 8) {
+        let mut w = vec![];
+        for _ in 0..rng.below(5) {
+            w.push(match rng.below(12) {
+                0 => W::P,
+                1 if rng.chance(1, 4) => W::Z,
+                2 if rng.chance(1, 4) => W::E,
+                3 => W::A(1 << 20),
+                _ => W::A(rng.range(1, 700) as usize),
+            });
+        }
+        let fl = match rng.below(8) {
+            0 => vec![F::P],
+            1 if rng.chance(1, 3) => vec![F::E],
+            _ => vec![],
+        };
+        rounds.push((w, fl));
+    }
+    FlushCase { n, rounds }
+}
+
+fn main() {
+    let args = parse_args();
+    let mut em = Emitter::default();
+    let fix21 = repo_has_fix21();
+    for (id, v) in args.fixed_inputs() {
+        if let Some(f) = v.get("flush") {
+            run_flush(id, serde_json::from_value(f.clone()).expect("flush case"), &mut em);
+        } else {
+            run_wake(id, serde_json::from_value(v).expect("case json"), fix21, &mut em);
+        }
+    }
+    if args.case.is_none() {
+        let n = args.n.unwrap_or(if args.thorough() { 1500 } else { 260 });
+        let mut rng = Rng::new(args.seed);
+        for i in 0..n {
+            let mut r = rng.fork();
+            if i % 4 == 3 {
+                run_flush(format!("gen-{i}"), gen_flush(&mut r), &mut em);
+            } else {
+                run_wake(format!("gen-{i}"), gen_wake(&mut r), fix21, &mut em);
+            }
+        }
+    }
+    em.finish();
+}
